@@ -427,6 +427,22 @@ def _run_item(item) -> Acc:
                 acc.nt(("invalid", carrier, bad))
                 if r["exit_code"] != 2:
                     acc.fail({"option": "invalid-value", "carrier": carrier, "mode": f"exit{r['exit_code']}"}, {"config": cfg, "carrier": carrier, "cmd": cmd, "files": files}, {"exit": 2}, {"exit": r["exit_code"]}, "documented-invalid value (non-positive limit) must end the run with exit 2")
+        # the same values inside a per-language block
+        for lname, key in (("nesting", "max_nesting_depth"), ("srp", "max_methods"), ("srp", "max_loc")):
+            st = _linter_setup(lname)
+            if st is None:
+                continue
+            cmd2, prefix2, files2, base2, sec2 = st
+            for lang in ("python", "typescript"):
+                for bad in (0, -1):
+                    cfg = _section_cfg(base2, sec2, {f"{lang}.{key}": bad})
+                    vs, r = _run(cmd2, prefix2, files2, cfg, "yaml")
+                    acc.case()
+                    acc.edge()
+                    acc.valid()
+                    acc.nt(("invalid-lang-block", lname, key, lang, bad))
+                    if r["exit_code"] != 2:
+                        acc.fail({"option": "invalid-value", "carrier": "per-language-block", "key": key, "value": "zero" if bad == 0 else "negative", "mode": f"exit{r['exit_code']}"}, {"cmd": cmd2, "files": files2, "config": cfg, "carrier": "yaml"}, {"exit": 2}, {"exit": r["exit_code"]})
         # the same documented-invalid values given on the command line
         for lname, flag in (("nesting", "--max-depth"), ("srp", "--max-methods"), ("srp", "--max-loc"), ("dry", "--min-lines"), ("pipeline", "--min-continues")):
             st = _linter_setup(lname)
